@@ -125,7 +125,26 @@ class C17(SolveProperty):
                                                 "backend failure (%s at SAT call %d) was converted into an answer: exit=%d stdout=%r" % (kind, at, pr.returncode, pr.stdout[:80]),
                                                 "cli/%s · answer after backend failure kind=%s" % (prob, kind),
                                                 {"cmd": " ".join(cmd), "env": {"FAKE_FAIL_AT": at, "FAKE_KIND": kind}, "stdout": pr.stdout[:200], "exit": pr.returncode}))
-        return findings, {"cli_fault_runs": n_runs, "cli_fault_runs_reached": reached, "cli_failure_kinds": kinds}
+        # the external program cannot be started at all (missing file, not executable)
+        notexec = os.path.join(runner.dir, "not_executable")
+        open(notexec, "w").write("#!/bin/sh\necho s SATISFIABLE\n")
+        os.chmod(notexec, 0o644)
+        for (prob, arg) in problems:
+            for bad in (os.path.join(runner.dir, "no_such_solver"), notexec):
+                cmd = [binp, "solve", "-f", inst, "-p", prob, "--external-sat-solver", bad, "--logging-level", "off"]
+                if arg:
+                    cmd += ["-a", arg]
+                try:
+                    pr = subprocess.run(cmd, stdout=subprocess.PIPE, stderr=subprocess.PIPE, text=True, timeout=60)
+                except subprocess.TimeoutExpired:
+                    findings.append(Finding("input", None, "crustabri hung with an external solver that cannot be started (%s)" % prob, "cli/%s · hang with unstartable backend" % prob, {"cmd": cmd}))
+                    continue
+                n_runs += 1
+                answered = any(l.strip() in ("YES", "NO") or l.startswith("w") or l.startswith("[") for l in pr.stdout.splitlines())
+                if pr.returncode == 0 or answered:
+                    findings.append(Finding("input", None, "an external solver that cannot be started was converted into an answer: exit=%d stdout=%r" % (pr.returncode, pr.stdout[:80]),
+                                            "cli/%s · answer although the backend cannot be started" % prob, {"cmd": " ".join(cmd), "stdout": pr.stdout[:200], "exit": pr.returncode}))
+        return findings, {"cli_fault_runs": n_runs, "cli_fault_runs_reached": reached, "cli_failure_kinds": kinds + ["missing program", "not executable"]}
 
 
 class C18(SolveProperty):
